@@ -40,7 +40,7 @@ def G(name, harness, entry=None, srcs=(), defs=(), arch=64, enforce=(), replace=
       obj_bits=None, ndebug=False, fast=False, neg_control=False, cfg_indep=False,
       no_shims=False, native_defs=(), stubs=(), expect_fail=(), dfcc=False,
       inline_loops=False, split=False, src_defs=(), spec_unwind=None, branch_hook=None,
-      native_cflags=(), strip=None):
+      native_cflags=(), strip=None, extra_units=()):
     """One obligation group.
     spec_unwind: unwinding bound for the loops of harness/spec functions (h_*, r_*, mon_*),
                 so that `unwind` can stay tight for the loops of the repository code
@@ -270,6 +270,10 @@ def build_goto(g, wd, env, pid="X"):
         if s.endswith("core/util.c") and not g["no_shims"]:
             extra += ["-DutilAssert=utilAssert_real"]
         units.append((rw.get(s, os.path.join(REPO, s)), extra))
+    for (s, d) in g["extra_units"]:
+        # a second copy of a repository source compiled with renaming -D flags (e.g. two instances of a
+        # function with static state); duplicate definitions of the file's other functions are dropped by the linker
+        units.append((os.path.join(REPO, s), list(sdefs) + ["-D" + x for x in d]))
     for i, (path, extra) in enumerate(units):
         flags = inc + extra
         if path.startswith(wd):
@@ -656,7 +660,8 @@ def native_build(g, wd, env):
             "-fno-omit-frame-pointer", "-w"] + inc + defs
     objs = []
     units = [(os.path.join(VERIF, g["harness"]), []), (os.path.join(VERIF, "lib/native_rt.c"), [])] + \
-        [(os.path.join(REPO, s), list(g["native_cflags"])) for s in srcs if not s.endswith("core/util.c")]
+        [(os.path.join(REPO, s), list(g["native_cflags"])) for s in srcs if not s.endswith("core/util.c")] + \
+        [(os.path.join(REPO, s), ["-D" + x for x in d]) for (s, d) in g["extra_units"]]
     for i, (f, extra) in enumerate(units):
         o = os.path.join(wd, "n%d.o" % i)
         rc, out, err, _, to = slot_sh(base + extra + ["-c", f, "-o", o], timeout=600, env=env)
